@@ -20,7 +20,7 @@ PROPS = {}
 
 def prop(pid, **kw):
     d = dict(kind='main', modes={'quick': ['plain'], 'thorough': ['plain']}, batches={'quick': 1, 'thorough': 8},
-             floor=100, wd={'quick': 900, 'thorough': 7200}, level='exploration', stage=False, assumptions=[])
+             floor=100, wd={'quick': 600, 'thorough': 7200}, level='exploration', stage=False, assumptions=[])
     d.update(kw)
     PROPS[pid] = d
 
@@ -43,6 +43,13 @@ prop('C18', harness='skipmon', kind='test', floor=5000, batches={'quick': 4, 'th
      assumptions=['internal/maplike is built from a staged copy of the working tree under its declared import path',
                   'structure is read through the public fmt.Stringer dump; keys contain no whitespace so the dump parses unambiguously',
                   'single-threaded use (the structure is not concurrent and the property does not ask)'])
+
+prop('C14', harness='itermon', floor=5000, batches={'quick': 4, 'thorough': 16},
+     assumptions=['every leaf is used once per evaluation and rebuilt for the next (the combinators are destructive)',
+                  'callbacks are pure functions of their arguments'])
+prop('C15', harness='itermon', floor=5000, batches={'quick': 4, 'thorough': 16},
+     assumptions=['every leaf is used once per evaluation and rebuilt for the next (the combinators are destructive)',
+                  'callbacks are pure functions of their arguments; keys (>= 1000) never equal values (< 997)'])
 
 # ---------------------------------------------------------------------------
 
@@ -208,7 +215,8 @@ def run_child(ctx, pid, binary, kind, mode, tier, seed, batch, nbatch, wd, extra
                 p = subprocess.run(cmd, cwd=ctx.rundir, env=env, stdout=ef, stderr=subprocess.STDOUT, timeout=wd)
                 rc = p.returncode
             except subprocess.TimeoutExpired:
-                inconc = 'watchdog (%ds) fired for child %s' % (wd, tag)
+                oid, ojs, _ = parse_wal(wal)
+                inconc = 'watchdog (%ds) fired for child %s; open case: %s %s' % (wd, tag, oid, (ojs or '')[:1500])
                 rc = None
         if os.path.exists(outp):
             try:
